@@ -1354,8 +1354,8 @@ class BaseSegment(metaclass=SegmentMetaclass):
         if not trimmed_content and self.can_start_end_non_code:
             # Edge case for empty segments which are allowed to be empty.
             return True
+        ctx.seed_parse_nodes(len(trimmed_content))
         try:
-            ctx.seed_parse_nodes(len(trimmed_content))
             rematch = self.match(trimmed_content, 0, ctx)
             if not rematch.matched_slice == slice(0, len(trimmed_content)):
                 linter_logger.debug(
